@@ -262,8 +262,6 @@ where
 
         if self.result.as_mut().unwrap().is_bin {
             if self.col == 0 {
-                self.result.as_mut().unwrap().writer.write_u8(0x00)?;
-
                 // leave space for nullmap
                 self.data.resize(self.bitmap_len, 0);
             }
@@ -311,11 +309,11 @@ where
         }
 
         if self.result.as_mut().unwrap().is_bin {
-            self.result
-                .as_mut()
-                .unwrap()
-                .writer
-                .write_all(&self.data[..])?;
+            // the row's header byte goes out with the row, not with its first value: a value
+            // that is refused must leave nothing behind in the packet
+            let w = &mut self.result.as_mut().unwrap().writer;
+            w.write_u8(0x00)?;
+            w.write_all(&self.data[..])?;
             self.data.clear();
         }
         self.result.as_mut().unwrap().writer.end_packet()?;
